@@ -120,9 +120,10 @@ class Tracer:
     def log(self, e: str, x: str = "ok", p: str = "", ids: Sequence[int] = (), ok: bool = True, r: int = 0, n: int = 0) -> None:
         self.events.append({"e": e, "x": x, "p": p, "ids": list(ids), "ok": bool(ok), "r": int(r), "n": int(n)})
 
-    def log_exc(self, e: str, p: str, ex: BaseException) -> None:
+    def log_exc(self, e: str, p: str, ex: BaseException, fallback: str = "") -> None:
         if self.first_exc is None:
-            self.first_exc = {"stage": p or e, "exc_type": type(ex).__name__, "frame": innermost_repo_frame(ex.__traceback__), "msg": str(ex)[:300], "site": innermost_repo_site(ex.__traceback__)}
+            # no frame of the repository below the wrapper: a contract of the wrapped function itself was violated
+            self.first_exc = {"stage": p or e, "exc_type": type(ex).__name__, "frame": innermost_repo_frame(ex.__traceback__) or fallback, "msg": str(ex)[:300], "site": innermost_repo_site(ex.__traceback__)}
         self.log(e, x="exc", p=p)
 
 
@@ -176,7 +177,7 @@ def _wrap(owner: Any, attr: str, event: str, phase: str = "", kind: str = "error
         except BaseException as ex:  # logged, re-raised: an observation of the run
             TR.depth[key] -= 1
             if not nested:
-                TR.log_exc(event if kind != "enter_exit" else event + "Return", phase, ex)
+                TR.log_exc(event if kind != "enter_exit" else event + "Return", phase, ex, fallback="%s.%s (contract)" % (getattr(owner, "__name__", "?"), attr))
             raise
         TR.depth[key] -= 1
         if nested:
